@@ -132,6 +132,8 @@ class TocFetcher:
         logger.debug('[%d]: Start fetching...', self.port)
         # Register callback in this class for the port
         self.cf.add_port_callback(self.port, self._new_packet_cb)
+        # Stop listening if the connection is lost before the TOC is complete
+        self.cf.disconnected.add_callback(self._abort)
 
         # Request the TOC CRC
         self.state = GET_TOC_INFO
@@ -144,9 +146,21 @@ class TocFetcher:
             pk.data = (CMD_TOC_INFO,)
             self.cf.send_packet(pk, expected_reply=(CMD_TOC_INFO,))
 
+    def _abort(self, *args):
+        """The connection was lost, a new fetcher is created for the next one"""
+        self.cf.remove_port_callback(self.port, self._new_packet_cb)
+        self._remove_abort_callback()
+
+    def _remove_abort_callback(self):
+        try:
+            self.cf.disconnected.remove_callback(self._abort)
+        except ValueError:
+            pass
+
     def _toc_fetch_finished(self):
         """Callback for when the TOC fetching is finished"""
         self.cf.remove_port_callback(self.port, self._new_packet_cb)
+        self._remove_abort_callback()
         logger.debug('[%d]: Done!', self.port)
         self.finished_callback()
 
